@@ -48,6 +48,18 @@ func (l *Log) Add(kind string, kv ...any) int {
 	return n
 }
 
+// Has reports whether an event of this kind has been appended.
+func (l *Log) Has(kind string) bool {
+	l.mu.Lock()
+	defer l.mu.Unlock()
+	for _, e := range l.evs {
+		if e["ev"] == kind {
+			return true
+		}
+	}
+	return false
+}
+
 // Len returns the number of events so far.
 func (l *Log) Len() int {
 	l.mu.Lock()
